@@ -1422,6 +1422,12 @@ class Executor:
         v = self.prog.const_cache.get(('item', it.name))
         if v is not None:
             return v
+        rty = str(it.locals.get(0, '') if hasattr(it, 'locals') and isinstance(getattr(it, 'locals', None), dict) else '')
+        if 'LocalKey<' in rty:
+            # a `thread_local!` key: a global cell of the state (mirsym/coll_bi.py), its accessor body is not executed
+            v = Opaque('tls', it.name)
+            self.prog.const_cache[('item', it.name)] = v
+            return v
         if it.kind == 'constval':
             t = it.value_text
             if not t.startswith('const '):
